@@ -462,7 +462,13 @@ fn resolve_non_null<'a>(
             (TypeRef::Named(_), None) => Ok(None),
 
             (TypeRef::NonNull(type_ref), Some(value)) => {
-                resolve_non_null(schema, ctx, type_ref, Some(value)).await
+                match resolve_non_null(schema, ctx, type_ref, Some(value)).await? {
+                    Some(Value::Null) | None => Err(ctx.set_error_path(
+                        Error::new("internal: non-null types require a return value")
+                            .into_server_error(ctx.item.pos),
+                    )),
+                    value => Ok(value),
+                }
             }
             (TypeRef::NonNull(_), None) => Err(ctx.set_error_path(
                 Error::new("internal: non-null types require a return value")
@@ -574,6 +580,12 @@ async fn resolve_value(
             ))
             .into_server_error(ctx.item.pos),
         )),
+
+        // `FieldValue::NULL` is the only way to put a null item into a list
+        (
+            Type::Enum(_) | Type::Interface(_) | Type::Union(_),
+            FieldValueInner::Value(Value::Null),
+        ) => Ok(None),
 
         (Type::Enum(e), FieldValueInner::Value(Value::Enum(name))) => {
             if !e.enum_values.contains_key(name.as_str()) {
